@@ -602,6 +602,28 @@ fn c05(cfg: &CCfg, e: &Exec, f: &Facts, vs: &mut Vec<Violation>, nt: &mut bool) 
                     format!("call {i} (deadline {}ms) failed with {o} at t={}ms on a healthy connection with the dispatch running", c.deadline_ms, t / 1_000_000),
                 );
             }
+            // "... fails with a deadline-exceeded error once its deadline passes without a reply":
+            // on a healthy connection the error of a transmitted, unanswered call that ends at or
+            // after its deadline is the deadline error, not a connection error (seeded change
+            // C05n dropped the entries of calls sharing the expired call's deadline instant)
+            if (o == "Shutdown" || o.starts_with("Channel"))
+                && cfg.fault.is_none()
+                && f.eof_sent.is_none()
+                && f.eof_read.is_none()
+                && f.dispatch_done.as_ref().map(|d| d.0 > *oidx).unwrap_or(true)
+                && f.dispatch_dropped.map(|d| d > *oidx).unwrap_or(true)
+                && *t >= d_ns
+                && id.map(|id| sent_at.contains_key(id)).unwrap_or(false)
+                && first_read.map(|r| r > *oidx).unwrap_or(true)
+            {
+                *nt = true;
+                v(
+                    vs,
+                    "C05-wrong-error",
+                    cfg,
+                    format!("call {i} (deadline {}ms), transmitted and unanswered, ended at t={}ms with {o} on a healthy connection with the dispatch running: the error of a missed deadline is the deadline error", c.deadline_ms, t / 1_000_000),
+                );
+            }
             if o == "Deadline" {
                 *nt = true;
                 if *t < d_ns {
@@ -1704,6 +1726,21 @@ pub fn configs(prop: CProp, tier: Tier) -> Vec<CCfg> {
             // seeded change C01j armed no timer for such a call and lost its reply)
             let ds: &[i64] = &[-1000, 0, 1, 50, 1000, 10_000, 700 * 86_400_000, 1100 * 86_400_000, 10_950 * 86_400_000];
             let span_ms = 730 * 86_400_000i64;
+            // several unanswered calls made with ONE context (the very same deadline instant, as in
+            // a join_all over a shared context): each of them fails with the deadline error at that
+            // instant (seeded change C05n failed the first and dropped its siblings' entries, which
+            // their callers see as a shut-down connection)
+            for (fl, cap) in [(Flavour::Always, 1usize), (Flavour::Coupled, 1)] {
+                for n in 2..=3usize {
+                    for dl in [1i64, 50] {
+                        for answered_last in [false, true] {
+                            let mut callers: Vec<CallerCfg> = (0..n).map(|_| CallerCfg { deadline_ms: dl, ..CallerCfg::simple(false) }).collect();
+                            callers[n - 1].answered = answered_last;
+                            out.push(base(callers, 3, 3, fl, cap, A_ADVANCE | A_DRAIN));
+                        }
+                    }
+                }
+            }
             for (fl, cap) in transports {
                 for mif in 1..=2usize {
                     for d0 in ds {
@@ -1841,6 +1878,24 @@ pub fn configs(prop: CProp, tier: Tier) -> Vec<CCfg> {
         }
         CProp::C11 => {
             let alpha = A_ABANDON | A_REPLY_UNOWED | A_DRAIN | A_ADVANCE | A_DUP;
+            // the last handle goes together with the last (abandoned) call, before the dispatch
+            // runs again: what the abandoned calls leave behind is reclaimed all the same - the
+            // dispatch does not sit on their entries and timers until the deadlines
+            // (seeded change C11n stopped reading cancellation notices once the request queue
+            // had closed)
+            for (fl, cap) in [(Flavour::Always, 1usize), (Flavour::Coupled, 1)] {
+                for n in 1..=2usize {
+                    for k in 1..=2u32 {
+                        let mut callers: Vec<CallerCfg> = (0..n).map(|_| CallerCfg::simple(false)).collect();
+                        for c in callers.iter_mut() {
+                            c.script = Script::AbandonAfter(k);
+                        }
+                        let mut c = base(callers, 2, 2, fl, cap, A_ABANDON | A_DRAIN | A_DROPROOT);
+                        c.keep_root = false;
+                        out.push(c);
+                    }
+                }
+            }
             // a queued call is abandoned and another task runs in the middle of its guard's drop
             // (yield points of the tarpc_verif hooks): whatever the dispatch does in that window, a
             // request whose caller has gone is not left tracked and transmitted with nobody to cancel it
